@@ -26,7 +26,7 @@
 (* Every event is always accepted; Step returns the broken clauses.            *)
 EXTENDS Naturals, Sequences, FiniteSets, TLC
 
-Fresh(cfg) == [cfg |-> cfg,          \* rd -> [temp |-> "delta"|"cumulative", kind |-> "manual"|"periodic"]
+Fresh(cfg) == [cfg |-> cfg,          \* rd -> [temp |-> "delta"|"cumulative", kind |-> "manual"|"periodic", wired |-> BOOLEAN (optional)]
                called |-> {},        \* ids whose Add has been called
                returned |-> {},      \* ids whose Add has returned
                covered |-> [r \in DOMAIN cfg |-> {}],   \* ids in completed reports of r
@@ -40,6 +40,9 @@ Fresh(cfg) == [cfg |-> cfg,          \* rd -> [temp |-> "delta"|"cumulative", ki
                runDone |-> [r \in DOMAIN cfg |-> FALSE], \* a Shutdown of r returned nil
                cberr |-> FALSE]      \* an observable callback returned an error during some collection
 
+(* wired = the instruments resolved for this reader (instrument creation returns a usable instrument together with *)
+(* an error when only some readers / views can be served); a reader for which resolution failed is unconstrained   *)
+Wired(m, rd) == IF "wired" \in DOMAIN m.cfg[rd] THEN m.cfg[rd].wired ELSE TRUE
 Put(f, k, v) == [x \in (DOMAIN f) \cup {k} |-> IF x = k THEN v ELSE f[x]]
 Key(id) == id[1]
 Keys(S) == {Key(x) : x \in S}
@@ -87,7 +90,8 @@ Oblige(m, rd, proc, op) ==
   LET missing == m.snap[proc] \ m.covered[rd]
       J == (m.inflight[rd] \ {proc})
            \cup (IF op = "Collect" /\ m.cfg[rd].kind = "periodic" /\ ~m.runDone[rd] THEN {"run"} ELSE {})
-  IN IF J = {}
+  IN IF ~Wired(m, rd) THEN <<m, {}>>
+     ELSE IF J = {}
        THEN <<m, {Lost(m, rd, op, x) : x \in missing}>>
        ELSE <<[m EXCEPT !.owe = @ \cup {[id |-> x, rd |-> rd, via |-> op, J |-> J] : x \in missing}], {}>>
 
@@ -105,7 +109,7 @@ Step(m, e) ==
          IN IF e.err \notin {"", "partial"}
               THEN Settle(m0, rd, e.proc)
               ELSE LET v1 == ReportViols(m0, rd, R, e)
-                             \cup (IF e.err = "" /\ m.cfg[rd].temp = "cumulative" /\ ~(m.snap[e.proc] \subseteq R)
+                             \cup (IF e.err = "" /\ Wired(m, rd) /\ m.cfg[rd].temp = "cumulative" /\ ~(m.snap[e.proc] \subseteq R)
                                      THEN {[kind |-> "cumulative-missed", rd |-> rd, ids |-> m.snap[e.proc] \ R]} ELSE {})
                              \cup (IF e.err = "" /\ m.cfg[rd].temp = "cumulative" /\ ~(m.csnap[e.proc] \subseteq R)
                                      THEN {[kind |-> "cumulative-decreased", rd |-> rd, ids |-> m.csnap[e.proc] \ R]} ELSE {})
